@@ -36,7 +36,7 @@ Proof. intros D doc. exact (format_agree_builtin doc). Qed.
 Print Assumptions C15_format_agree_builtin_partial.
 
 Example C15_builtin_nonvacuous :
-  exists fd, In ("TOMLDialect", fd) builtin_dialects /\ opts_of fd = mkO None (Some true).
+  exists fd, In ("TOMLDialect", fd) builtin_dialects /\ opts_of fd = mkO None (Some true) None.
 Proof. exact builtin_toml_omit_none. Qed.
 
 (* without a caller dialect: mixin method == codec object == one-shot function *)
